@@ -63,8 +63,43 @@ ERROR_EXIT_HANGS = ('error-exit-hangs', {'files': [('f0.c', 'abcdef')], 'rules':
 # only just been started when the round is decided and everything still running is abandoned
 LATE_STARTERS = ('late-starters', {'files': [('f0.c', 'abcdefghijklmn')], 'timeout': 6, 'slow_s': 0.6,
                                    'rules': [([('nothas', 0, 'a')], 'slow0'), ([], 'timeout')],
-                                   'passes': [{'key': 1, 'ops': [('delch', 'a')] + [('wait', round(0.45 + 0.06 * k, 2), k + 1) for k in range(11)], 'aos': 1}],
+                                   'passes': [{'key': 1, 'ops': [('delch', 'a')] + [('wait', round(0.45 + 0.06 * k, 2), k + 1) for k in range(11)], 'aos': 1, 'maxt': 1}],
                                    'cfg': {'N': 12}})
+
+
+def late_starters(ctx):
+    """(a) with the registration message of a test delayed by 0.25 s (a schedule the real pool can produce: the message is a
+    round trip to the manager process) the test that had just been started when the round was decided is never registered and
+    survives: the recorded finding `late-start-unregistered`.  (b) without any delay the window is a fraction of a millisecond:
+    three runs; a leak in EVERY run means the window has been made wide (a violation of its own), a leak in some of them is the
+    recorded finding showing up by itself."""
+    sc = LATE_STARTERS[1]
+    o = realrun.run_real(sc, ctx.tmp, timeout=sc['timeout'], slow_registration=0.25)
+    ctx.evaluations += 1
+    ctx.count('real-pool:late-starters:registration-delayed')
+    if o.tmp_listing:
+        ctx.violation('tmpdir-leak:real', f'real pool: TMPDIR holds {o.tmp_listing} after the run', {'scenario': sc, 'kind': 'late', 'delay': 0.25})
+    if o.alive:
+        ctx.violation('late-start-unregistered', f'registration delayed by 0.25 s: pids {o.alive} still alive after the run', {'scenario': sc, 'kind': 'late', 'delay': 0.25})
+    ctx.sample({'real_pool': 'late-starters, registration delayed', 'tests_started': len(o.started_pids), 'alive_after': o.alive})
+    leaks = []
+    runs = 3
+    for _ in range(runs):
+        o = realrun.run_real(sc, ctx.tmp, timeout=sc['timeout'])
+        ctx.evaluations += 1
+        ctx.count('real-pool:late-starters')
+        if o.tmp_listing:
+            ctx.violation('tmpdir-leak:real', f'real pool: TMPDIR holds {o.tmp_listing} after the run', {'scenario': sc, 'kind': 'late'})
+        leaks.append(list(o.alive))
+    ctx.nontriv('real:late-starters')
+    n = sum(1 for x in leaks if x)
+    if n == runs:
+        ctx.violation('process-leak:late-starters-every-run', f'real pool: a test started just before the round was decided survived in every one of {runs} runs '
+                      f'(pids {leaks}): it is not registered until well after its start', {'scenario': sc, 'kind': 'late'})
+    elif n:
+        ctx.violation('late-start-unregistered', f'a test started just before the round was decided survived in {n} of {runs} runs (pids {leaks})', {'scenario': sc, 'kind': 'late'})
+    ctx.sample({'real_pool': 'late-starters', 'runs': runs, 'runs_with_a_survivor': n})
+
 
 
 def real_case(ctx, sc, tag, fork):
@@ -207,8 +242,7 @@ def explore(ctx):
     o = real_case(ctx, ERROR_EXIT_HANGS[1], ERROR_EXIT_HANGS[0], False)
     if not any(p['code'] for p in o.passes):
         ctx.broke('harness', 'error-exit-hangs scenario', 'the run did not end by an error')
-    o = real_case(ctx, LATE_STARTERS[1], LATE_STARTERS[0], False)
-    ctx.sample({'real_pool': 'late-starters', 'tests_started': len(getattr(o, 'started_pids', [])), 'alive_after': o.alive})
+    late_starters(ctx)
     # ... and while the hanging tests keep writing files into their directories
     o = real_case(ctx, dict(ERROR_EXIT_HANGS[1], hang_writes=True), 'error-exit-hangs-writing', False)
     if not any(p['code'] for p in o.passes):
@@ -224,6 +258,9 @@ def replay(ctx, payload):
     r = payload['replay']
     if r.get('kind') == 'pidq':
         pidq_direct(ctx, random.Random(1))
+        return
+    if r.get('kind') == 'late':
+        late_starters(ctx)
         return
     if r.get('kind') == 'real':
         real_case(ctx, r['scenario'], 'replay', r.get('fork', False))
